@@ -1,4 +1,3 @@
-use std::cmp::max;
 use inkayaku_board::constants::ZobristHash;
 
 pub struct ZobristHistory {
@@ -12,18 +11,14 @@ impl ZobristHistory {
     }
 
     pub fn count_repetitions(&self, start_index: u16, halfmove_clock: u16) -> usize {
-        if start_index < 4 {
-            return 0;
-        }
-
-        let mut current_index = start_index as i32 - 4;
         let mut repetitions = 1_usize;
         let zobrist = self.history[start_index as usize];
 
-        let min_index = max(0, start_index as i32 - halfmove_clock as i32);
+        // The index is a ply count modulo 2^16, so the way back may pass slot 0
+        let mut distance = 4_u32;
 
-        while current_index >= min_index {
-            let current_zobrist = self.history[current_index as usize];
+        while distance <= u32::from(halfmove_clock) {
+            let current_zobrist = self.history[start_index.wrapping_sub(distance as u16) as usize];
             if current_zobrist == zobrist {
                 repetitions += 1;
 
@@ -32,7 +27,7 @@ impl ZobristHistory {
                 }
             }
 
-            current_index -= 2;
+            distance += 2;
         }
 
         repetitions
